@@ -555,7 +555,7 @@ def adams_solver_unit(prop="C03"):
     u = Unit(prop, "adams_solver", preludes=("real", "stdx", "ivp", "rkm", "deque"), cfg=c)
     u.crate_attrs = ["#![feature(allocator_api)]"]
     u.rlimit = 300
-    u.timeout = 900
+    u.timeout = 600
     u.spec("use std::collections::VecDeque;")
     u.item("src/lib.rs", "enum", "DimensionError")
     u.item("src/ivp.rs", "enum", "IVPError")
@@ -871,7 +871,7 @@ def bdf_solver_unit(prop="C03"):
     u = Unit(prop, "bdf_solver", preludes=("real", "stdx", "ivp", "rkm", "deque", "dmx"), cfg=c)
     u.crate_attrs = ["#![feature(allocator_api)]"]
     u.rlimit = 100
-    u.timeout = 900
+    u.timeout = 600
     u.spec("use std::collections::VecDeque;")
     u.item("src/lib.rs", "enum", "DimensionError")
     u.item("src/ivp.rs", "enum", "IVPError")
